@@ -8,6 +8,7 @@ import (
 	"math"
 	"path/filepath"
 	"sync"
+	"sync/atomic"
 	"testing"
 	"time"
 
@@ -1138,6 +1139,72 @@ func TestSettableRandom(t *testing.T) {
 				w.write(J{"ev": "Sample", "trace": k, "i": i, "in": J{"rtt": chunks(rtt), "rttf": chunks(int64(float64(rtt))), "inflight": infl, "drop": drop, "mode": "free", "zero": rtt == 0}, "obs": o})
 			}
 		}
+	}
+	// listeners registered at once from several goroutines (directly and through the traced wrapper, which takes no lock of
+	// its own): every one of them is told of the next change
+	regRounds := envInt("VERIF_REGS", 300)
+	for ai, algo := range []string{"aimd", "vegas", "gradient", "gradient2", "settable"} {
+		lost, total := 0, 0
+		for round := 0; round < regRounds; round++ {
+			var inner core.Limit
+			var set func(int)
+			switch algo {
+			case "aimd":
+				inner = limit.NewAIMDLimit("reg", 10, 0.9, 1, core.EmptyMetricRegistryInstance)
+			case "vegas":
+				inner = limit.NewDefaultVegasLimitWithLimit("reg", 10, nil, core.EmptyMetricRegistryInstance)
+			case "gradient":
+				inner = limit.NewGradientLimitWithRegistry("reg", 50, 1, 200, 0.2, nil, 2, limit.ProbeDisabled, nil, core.EmptyMetricRegistryInstance)
+			case "gradient2":
+				g2, err := limit.NewGradient2Limit("reg", 50, 200, 1, nil, 0.2, 10, nil, core.EmptyMetricRegistryInstance)
+				if err != nil {
+					t.Fatal(err)
+				}
+				inner = g2
+			default:
+				st := limit.NewSettableLimit("reg", 10, core.EmptyMetricRegistryInstance)
+				inner, set = st, st.SetLimit
+			}
+			traced := limit.NewTracedLimit(inner, limit.NoopLimitLogger{})
+			const g = 8
+			var called [g]int32
+			var wg sync.WaitGroup
+			var ready int32
+			for x := 0; x < g; x++ {
+				wg.Add(1)
+				go func(x int) {
+					defer wg.Done()
+					atomic.AddInt32(&ready, 1)
+					for atomic.LoadInt32(&ready) < g { // spin barrier: all registrations at the same instant
+					}
+					target := inner
+					if x%2 == 1 {
+						target = traced
+					}
+					target.NotifyOnChange(func(int) { atomic.StoreInt32(&called[x], 1) })
+				}(x)
+			}
+			wg.Wait()
+			before := inner.EstimatedLimit()
+			for i := 0; i < 400 && inner.EstimatedLimit() == before; i++ {
+				if set != nil {
+					set(before + 5)
+				} else {
+					inner.OnSample(0, int64(1000+i%3), before*2+10, false) // healthy, saturated: every algorithm grows
+				}
+			}
+			if inner.EstimatedLimit() == before {
+				continue // no change to be told of
+			}
+			total++
+			for x := 0; x < g; x++ {
+				if atomic.LoadInt32(&called[x]) == 0 {
+					lost++
+					break
+				}
+			}
+		}
+		w.write(J{"ev": "Registered", "trace": n + 10 + ai, "i": 0, "algo": algo, "rounds": total, "lost": lost})
 	}
 	// the estimate as a listener sees it while it is being notified of an explicit set
 	for wi, wrap := range wraps {
